@@ -3,6 +3,8 @@ import EdpVerif.Lemmas.SerdeBytes
 import EdpVerif.Lemmas.SerdeInt
 import EdpVerif.Lemmas.SerdeTables
 import EdpVerif.Lemmas.SerdeNaN
+import EdpVerif.Lemmas.SerdeAny
+import EdpVerif.Lemmas.SerdeShape
 /-
 C15 — serde round trip returns the original Rust value, also across the wire.
 Property theorems only; helper lemmas live in EdpVerif/Lemmas/Serde*.lean.
@@ -220,5 +222,113 @@ theorem C15_atom_names_agree :
     Gen.C15_ATOM_UNIT = Gen.C15_ATOM_DE_UNIT ∧ Gen.C15_ATOM_NONE = Gen.C15_ATOM_DE_NONE ∧
     sTrue ≠ sFalse ∧ sNil ≠ sUndefined ∧ sTrue ≠ sUndefined ∧ sFalse ≠ sUndefined ∧
     sStructKey = [95, 95, 115, 116, 114, 117, 99, 116, 95, 95] ∧ sElixirDot = [69, 108, 105, 120, 105, 114, 46] := by decide
+
+/-! ## `deserialize_any`: the entry point behind untagged / internally / adjacently tagged enums and `#[serde(flatten)]` -/
+
+section Any
+open Edp.SerdeAny
+
+/-- Every integer of every width, over its whole range, is shown to a self-describing reader as the 64-bit integer it
+is — `visit_i64` when it fits `i64`, `visit_u64` above — as the serialiser builds it AND as it comes back from the wire
+(where everything outside the 32-bit encodings is a big integer). Before the repair of `deserialize_any` the big-integer
+terms were `UnsupportedType`, so a `u64` above `i64::MAX` in memory and every integer beyond 32 bits across the wire
+failed in every type that serde reads through `deserialize_any`. -/
+theorem C15_any_reads_every_64bit_integer (k : IntTy) (i : Int) (h : k.inRange i = true) :
+    content (ser (.int k i)) = .ok (rep i) ∧ content (wireT (ser (.int k i))) = .ok (rep i) := by
+  have h64 : ¬ (k = .u64 ∧ i > i64Max) → IntTy.i64.inRange i = true := by
+    intro hn
+    simp only [IntTy.inRange, Bool.and_eq_true, decide_eq_true_eq] at h ⊢
+    cases k <;> simp [IntTy.lo, IntTy.hi, i64Max] at h hn ⊢ <;> omega
+  constructor
+  · refine content_of_deInt k (ser (.int k i)) i (by simpa [ser] using deInt_serInt k i h) ?_
+    intro j hj
+    simp only [ser, serInt] at hj
+    split at hj
+    · simp at hj
+    · rename_i hn
+      injection hj with hj
+      subst hj
+      exact h64 hn
+  · refine content_of_deInt k (wireT (ser (.int k i))) i (by simpa [ser] using deInt_wire k i h) ?_
+    intro j hj
+    simp only [ser, serInt] at hj
+    split at hj
+    · simp [wireT] at hj
+    · rename_i hn
+      simp only [wireT] at hj
+      split at hj
+      · injection hj with hj
+        subst hj
+        exact h64 hn
+      · simp at hj
+
+example : content (ser (.int .u64 18446744073709551615)) = .ok (.u64 18446744073709551615) ∧
+    content (wireT (ser (.int .i64 (-1099511627776)))) = .ok (.i64 (-1099511627776)) :=
+  ⟨(C15_any_reads_every_64bit_integer .u64 18446744073709551615 (by decide)).1,
+   (C15_any_reads_every_64bit_integer .i64 (-1099511627776) (by decide)).2⟩
+
+/-- …and never a fabricated number: for ANY big-integer term (any sign, any digits, padded, negative zero, 300 digits)
+`deserialize_any` succeeds exactly when the term's numeric value fits 64 bits, and then shows exactly that value. -/
+theorem C15_any_big_integer_exact (neg : Bool) (d : Bytes) (c : Content) :
+    content (.big neg d) = .ok c ↔
+      ∃ i, intVal (.big neg d) = some i ∧ (IntTy.i64.inRange i = true ∨ IntTy.u64.inRange i = true) ∧ c = rep i := by
+  obtain ⟨i, hi⟩ : ∃ i, intVal (.big neg d) = some i := ⟨_, rfl⟩
+  by_cases h : IntTy.i64.inRange i = true ∨ IntTy.u64.inRange i = true
+  · rw [contentBig_of_intVal neg d i hi h]
+    constructor
+    · intro e
+      injection e with e
+      exact ⟨i, hi, h, e.symm⟩
+    · rintro ⟨j, hj, _, hc⟩
+      rw [hi] at hj
+      injection hj with hj
+      subst hj
+      rw [hc]
+  · have h1 : IntTy.i64.inRange i = false := by cases hh : IntTy.i64.inRange i <;> simp_all
+    have h2 : IntTy.u64.inRange i = false := by cases hh : IntTy.u64.inRange i <;> simp_all
+    rw [contentBig_out_of_range neg d i hi h1 h2]
+    constructor
+    · intro e; cases e
+    · rintro ⟨j, hj, hr, _⟩
+      rw [hi] at hj
+      injection hj with hj
+      subst hj
+      exact absurd hr h
+
+example : content (.big false [0, 0, 0, 0, 0, 0, 0, 0, 1]) = .error .err := by rfl
+
+/-- The arms of the model ARE the arms of the source (regenerated from de.rs on every run): per `OwnedTerm` constructor the
+`visit_*` calls in source order, computed from the model by evaluation on probe terms that reach every branch; the atoms
+with a meaning of their own are the serialiser's `true` / `false` / `nil` / `undefined`; the big-integer arm goes through
+`integer_term_as`; and what has no arm (a big integer beyond 64 bits, improper lists, bit strings, funs, ports,
+references) is an error. -/
+theorem C15_any_arms_are_the_sources :
+    modelArms = Gen.C15_ANY_ARMS ∧
+    Gen.C15_ANY_ATOM_BYTES = [sTrue, sFalse, sNil, sUndefined] ∧
+    Gen.C15_ANY_ATOMS.map (fun a => (a.2.1, a.2.2)) = [("visit_bool", "true"), ("visit_bool", "false"), ("visit_unit", ""), ("visit_none", "")] ∧
+    Gen.C15_ANY_VIA_INTEGER_TERM_AS = ["BigInt"] ∧
+    unsupportedProbes.map (fun t => visitOf (content t)) = unsupportedProbes.map (fun _ => "error") := by
+  refine ⟨by rfl, by decide, by decide, by decide, by rfl⟩
+
+end Any
+
+/-! ## the error clause, constructor by constructor -/
+
+/-- A term of the wrong shape for the requested type is an error, never a fabricated value — for EVERY constructor of the
+type universe and every term: integers are read from integer terms only (either representation), floats from floats,
+`bool` from the atoms `true` / `false`, `char` from a string or binary, `String` from binary / string / atom, bytes from a
+binary, `()` from `nil`, `Option<T>` from `undefined` or whatever `T` is read from, tuples and tuple structs from tuples
+with at least as many elements, `Vec` from a list or `[]`, maps / structs / Elixir structs from maps, a unit struct from
+the atom of its name, a newtype from whatever its content is read from, an enum from an atom naming a variant or a
+non-empty tuple whose head names one. (`SerdeShape.shapeOk` is that table; it is written from the data model, not from
+de.rs.) -/
+theorem C15_wrong_shape_is_error (ty : Ty) (t : Term) (h : SerdeShape.shapeOk ty t = false) : de ty t = .error .err :=
+  SerdeShape.wrong_shape_is_error ty t h
+
+example : SerdeShape.shapeOk (.option (.newtype [78] (.int .u8))) (.float 0) = false ∧
+    SerdeShape.shapeOk (.tuple [.bool, .bool, .bool]) (.tuple [.atom sTrue, .atom sTrue]) = false ∧
+    SerdeShape.shapeOk (.enum [69] [([65], .unit)]) (.atom [66]) = false ∧
+    SerdeShape.shapeOk (.enum [69] [([65], .unit)]) (.atom [65]) = true ∧
+    SerdeShape.shapeOk (.seq .bool) .nil = true := by decide
 
 end Edp.Props.C15
